@@ -427,6 +427,9 @@ impl<'a> Gen<'a> {
                         _ => 1,
                     }
                 }
+            } else if f.xml_lang {
+                // xml:lang stays absent: its wire form is outside the attribute clause of C03/C04
+                usize::from(f.wrap == Wrap::Bare)
             } else if f.attr {
                 match f.wrap {
                     Wrap::Bare => 1,
